@@ -159,7 +159,7 @@ impl ActTask for Act {
                     return Ok(true);
                 }
 
-                if t.state().is_success() {
+                if t.state().is_success() && t.is_chain_completed() {
                     count += 1;
                 }
             }
